@@ -37,7 +37,94 @@ Theorem signature_length :
 Proof. exact Proofs.C30.signature_length. Qed.
 Print Assumptions signature_length.
 
-(* tightness: the bound is reached (all four input kinds, all four output kinds, maximal
+(* THE PROPERTY ON WHAT THE JUDGE EVALUATES.  The per-run judge does not see a matching: it
+   evaluates the boolean [covered] (Model/C30.v) on a case whose items pair each estimator call
+   with run-length groups of the real inputs / outputs generated for it.  [describes items ins outs]
+   (Proofs/C30.v, Part G) says what such a case asserts about the real transaction: up to the
+   order of inputs and outputs (the wallet's order is not the estimator's), [ins] is the
+   concatenation, item by item and group by group, of [ci_mult] real inputs whose kind (class,
+   witness flag, redeem length, push length of the redeem script) is the group's, and [outs] of
+   [m] outputs with an [n]-byte script for every pair (m, n); signature and key lengths are free.
+   [covered_sound]: the executable check implies the existential matching premise of
+   [estimate_ge_actual].  For a deposit-sweep case [covered] ignores the witness flag of the
+   deposits (the sweeps the wallet makes include legacy P2SH deposits, known finding
+   C30-sweep-p2sh-deposits); the implication then needs [flags_agree]: every real input has the
+   announced witness flag, i.e. no legacy deposit is swept. *)
+Theorem covered_sound :
+  forall (c : case) (ins : list rin) (outs : list txout),
+    covered c = true ->
+    (is_sweep (c_caller c) = true -> forallb flags_agree (c_items c) = true) ->
+    describes (c_items c) ins outs ->
+    (exists ss rest, Permutation (ss ++ rest) (shape_ins (map it_op (c_items c)))
+                     /\ Forall2 (fun s i => in_covered s (ri_kind i) = true) ss ins) /\
+    (exists os rest, Permutation (os ++ rest) (shape_outs (map it_op (c_items c)))
+                     /\ Forall2 (fun s o => out_covered s o = true) os outs).
+Proof. exact Proofs.C30.covered_sound. Qed.
+Print Assumptions covered_sound.
+
+(* hence, directly on the judge's predicate: a covered case, any real transaction it describes
+   that the builder produces, any signatures: estimate >= virtual size *)
+Theorem covered_estimate_ge_actual :
+  forall (c : case) (ins : list rin) (outs : list txout) (T : tx) (e : N),
+    covered c = true ->
+    (is_sweep (c_caller c) = true -> forallb flags_agree (c_items c) = true) ->
+    describes (c_items c) ins outs ->
+    estimate (map it_op (c_items c)) = VOk e -> build ins outs = Some T ->
+    vsize T <= e.
+Proof. exact Proofs.C30.covered_estimate_ge_actual. Qed.
+Print Assumptions covered_estimate_ge_actual.
+
+(* the premises above are satisfiable (one group of multiplicity 2, low and high S) *)
+Theorem covered_premises_satisfiable :
+  covered ex_case = true /\ is_sweep (c_caller ex_case) = false /\
+  describes (c_items ex_case) ex_ins [out_of 22] /\
+  exists T e, build ex_ins [out_of 22] = Some T /\ estimate (map it_op (c_items ex_case)) = VOk e /\
+              (vsize T <=? e) = true.
+Proof. exact Proofs.C30.covered_premises_satisfiable. Qed.
+Print Assumptions covered_premises_satisfiable.
+
+(* TIGHTNESS, in general.  [in_exact s k] = [in_covered s k], redeem script of exactly the
+   announced length, and [s] is not a non-witness script-hash slot announced with an EMPTY
+   redeem script.  Whenever the real transaction uses every announced slot exactly (same
+   multiset of shapes, output scripts of the announced standard lengths) and every signature has
+   the maximal 72-byte encoding, the estimate EQUALS the virtual size: the weights coincide, so
+   there is no rounding slack. *)
+Theorem estimate_exact_for_maximal_signatures :
+  forall (ops : list op) (ins : list rin) (outs : list txout) (T : tx) (e : N),
+    estimate ops = VOk e -> build ins outs = Some T ->
+    (exists ss, Permutation ss (shape_ins ops)
+                /\ Forall2 (fun s i => in_exact s (ri_kind i) = true) ss ins) ->
+    (exists os, Permutation os (shape_outs ops)
+                /\ Forall2 (fun s o => len (to_script o) = oshape_len s) os outs) ->
+    Forall (fun i => len (sig_bytes_with der_serialize i) = 72) ins ->
+    vsize T = e.
+Proof. exact Proofs.C30.estimate_exact_for_maximal_signatures. Qed.
+Print Assumptions estimate_exact_for_maximal_signatures.
+
+(* its premises hold of [tight_ops] / [tight_ins] / [tight_outs] (all four input kinds, all four
+   output kinds, inputs in another order than announced) *)
+Theorem exact_premises_satisfiable :
+  (exists ss, Permutation ss (shape_ins tight_ops)
+              /\ Forall2 (fun s i => in_exact s (ri_kind i) = true) ss tight_ins) /\
+  (exists os, Permutation os (shape_outs tight_ops)
+              /\ Forall2 (fun s o => len (to_script o) = oshape_len s) os tight_outs) /\
+  Forall (fun i => len (sig_bytes_with der_serialize i) = 72) tight_ins.
+Proof. exact Proofs.C30.exact_premises_satisfiable. Qed.
+Print Assumptions exact_premises_satisfiable.
+
+(* the one excluded slot: a non-witness script-hash input announced with an empty redeem script
+   is estimated with an OP_0 push the builder does not write; the transaction of exactly that
+   shape with a maximal signature is STRICTLY (one vbyte) below the estimate *)
+Theorem empty_redeem_overestimates :
+  exists T e, build [mk_rin (KSh false []) r33 s_low32] [out_of 22] = Some T /\
+              estimate [OShIn 1 0 false; OPkhOut 1 true] = VOk e /\
+              ((vsize T + 1 =? e) && in_covered (SSh false 0) (KSh false [])
+               && forallb (fun i => len (sig_bytes_with der_serialize i) =? 72)
+                          [mk_rin (KSh false []) r33 s_low32]) = true.
+Proof. exact Proofs.C30.empty_redeem_overestimates. Qed.
+Print Assumptions empty_redeem_overestimates.
+
+(* tightness by computation: the bound is reached (all four input kinds, all four output kinds, maximal
    signatures, two of them handed over with a high S) *)
 Theorem estimate_tight :
   (* [tight_ops] announces one input of each of the four kinds (126-byte redeem scripts) and one
